@@ -1,9 +1,9 @@
 """C07 — compressed output is a pure function of input, parameters, dictionary and calls."""
 RULE = ('context kind {heap, static} x every prior history of depth <= d over 17 operations (complete frames at level 1 / 19 / row+LDM / window 2^10, aborted frame + session reset, failed '
         'call + reset, stable-input call + reset, stable-output frame, ZSTD_generateSequences, mid-frame level change, pledged frame, prefix frame, loadDictionary frame, 2-worker frame, '
-        'registered sequence producer, shared thread pool, parameter reset) x subjects (6 inputs x <= D deviations over 14 parameter vectors incl. all strategies / row finder / LDM / '
+        'registered sequence producer, shared thread pool, parameter reset) x subjects (7 inputs (quick: 4; incl. match-less stretches of > 2 KiB followed by repeats of what was skipped) x <= D deviations over 14 parameter vectors incl. all strategies / row finder / LDM / '
         'targetCBlockSize / level 19 / prefix, 4 call sequences incl. 7-byte outputs and mid-frame flushes, 3 source / destination alignments), source placed right after a PROT_NONE page; '
-        'second unit: 40 (thorough 200) text-like inputs x 2 sizes x the 3 optimal-parser strategies after {nothing, a 600 KB level-3 frame, a level-19 frame} on a heap context and on caller-provided memory pre-filled with 0x3F / 0xFF; oracle: bytes identical to the fresh-context run of the same subject; worker counts and schedules are judged in C11 (one output per subject over every explored schedule); '
+        'second unit: 40 (thorough 200) text-like inputs x 2 sizes x the 3 optimal-parser strategies after {nothing, a 600 KB level-3 frame, a level-19 frame} on a heap context and on caller-provided memory pre-filled with 0x3F / 0xFF; unit c07-big: subjects of 400 000 / 900 000 bytes (several full blocks; an archive-like one compressed with the row finder and small tables so that rows evict all the time) x 5 levels x 5 priors x 3 entry points; oracle: bytes identical to the fresh-context run of the same subject; worker counts and schedules are judged in C11 (one output per subject over every explored schedule); '
         'distinct = distinct subject outputs; non-trivial = non-empty history')
 SRC = ['harness/c07_purity.c', 'ref/edu_decoder.c']
 
@@ -11,7 +11,7 @@ SRC = ['harness/c07_purity.c', 'ref/edu_decoder.c']
 def run(vc, tier):
     c = vc.Check('C07', tier, 'model_checking', RULE)
     q = tier == 'quick'
-    r = c.run_vx_unit('c07-histories', SRC, 'asan', ['--depth', 2 if q else 3, '--D', 1 if q else 2, '--nshapes', 3 if q else 6, '--exec-timeout', 60000], share=0.6)
+    r = c.run_vx_unit('c07-histories', SRC, 'asan', ['--depth', 2 if q else 3, '--D', 1 if q else 2, '--nshapes', 4 if q else 7, '--exec-timeout', 60000], share=0.6)
     r2 = c.run_vx_unit('c07-opt', SRC, 'asan', ['--mode', 1, '--ninputs', 40 if q else 200, '--D', 0, '--exec-timeout', 60000], share=0.9)
     # the same optimal-parser unit without sanitizers: the allocator hands out different (recycled, not pattern-filled) memory there, which is exactly what
     # "does not depend on heap vs reused memory" is about
